@@ -26,6 +26,8 @@ def run(ctx):
         ctx.count("samples_checked", res.get("samples_checked", 0))
         if res.get("rejected_up_front"):
             ctx.count("rejected_up_front")
+        if res.get("draw_cap"):
+            ctx.count("runs_cut_by_nonterminating_ins_draw")
         if res["resumes"]:
             ctx.count("runs_with_resume")
             ctx.count("resumes", res["resumes"])
